@@ -147,6 +147,23 @@ Section IPAComplete.
   Definition vs_of (z : F) (items : list (LPoly * option nat * IComm * IRand)) : list F :=
     map (fun it => let '(lp, cb, cm, st) := it in eval (lp_poly lp) z) items.
 
+  (* what the opening actually needs of an item (free-module view): the commitment is, coordinate by coordinate, the key-defined
+     linear map of the polynomial plus the blinding term; the shifted part likewise for the shifted polynomial.  Commitments made
+     by commit satisfy it (honest_sem); so do the combined items of open_combinations, which commit never made. *)
+  Definition sem_honest (d : nat) (it : LPoly * option nat * IComm * IRand) : Prop :=
+    let '(lp, cb, cm, st) := it in
+    cb = lp_bound lp /\
+    i_check_dab d (lp_poly lp) (lp_bound lp) = Ok tt /\
+    (forall i, co i (ic_comm cm) = dot (lp_poly lp) (map (co i) (key_of d)) + ir_rand st * co i (gs d)) /\
+    match lp_bound lp with
+    | Some b => exists sc, ic_shifted cm = Some sc /\
+                  forall i, co i sc = dot (repeat 0 (d - b) ++ trim (lp_poly lp)) (map (co i) (key_of d))
+                                      + match ir_shifted st with Some x => x | None => 0 end * co i (gs d)
+    | None => ic_shifted cm = None
+    end /\
+    (lp_hiding lp = None -> ir_rand st = 0 /\ ir_shifted st = None) /\
+    (is_some (lp_hiding lp) = true -> is_some (ir_shifted st) = is_some (lp_bound lp)).
+
   Definition Inv (d : nat) (a : oacc) : Prop :=
     hz (d + 1) (oa_p a) /\ (oa_hid a = false -> oa_r a = 0) /\
     forall i, co i (oa_c a) = dot (oa_p a) (map (co i) (key_of d)) + oa_r a * co i (gs d).
@@ -164,6 +181,21 @@ Section IPAComplete.
     unfold cm_at. rewrite dot_repeat0_app, skipn_map.
     destruct r as [x|]; [rewrite co_gvadd, co_gvscale|]; rewrite co_gmsm; ring.
   Qed.
+  Lemma honest_sem d it : honest d it -> sem_honest d it.
+  Proof.
+    destruct it as [[[lp cb] cm] st]. intros (Ecb & rng & n & Hc).
+    destruct (commit1_inv _ _ _ _ _ _ Hc) as (Hdab & Ecomm & Eshift & Hnh & Hhs).
+    destruct (check_dab_inv _ _ _ Hdab) as (Hdeg & Hb).
+    unfold sem_honest. split; [exact Ecb|]. split; [exact Hdab|]. split.
+    { intros i. rewrite Ecomm. apply co_commit. exact Hdeg. }
+    split; [|split; assumption].
+    rewrite Eshift. destruct (lp_bound lp) as [b|]; [|reflexivity].
+    eexists. split; [reflexivity|]. intros i. apply co_cm_at.
+  Qed.
+
+  Lemma commit1_sem_honest d lp rng cm st n : i_commit1 d lp rng = Ok (cm, st, n) -> sem_honest d (lp, lp_bound lp, cm, st).
+  Proof. intros H. apply honest_sem. split; [reflexivity|]. exists rng, n. exact H. Qed.
+
   Lemma shift_poly_dot d p b k : dot (i_shift_poly d p b) k = dot (repeat 0 (d - b) ++ trim p) k.
   Proof.
     unfold i_shift_poly, is_zero_poly. destruct (trim p) as [|c t]; [|reflexivity].
@@ -185,7 +217,7 @@ Section IPAComplete.
   Proof. intros ->. reflexivity. Qed.
 
   Lemma loop_sim d z : forall items cur chal a cv a' cur' chal',
-    Forall (honest d) items -> Inv d a ->
+    Forall (sem_honest d) items -> Inv d a ->
     i_open_loop d items cur chal a = Ok (a', cur', chal') ->
     Inv d a' /\
     i_sc_loop d z (cs_of items) (vs_of z items) cur chal (oa_c a) cv
@@ -195,8 +227,7 @@ Section IPAComplete.
     - cbn [i_open_loop] in H. injection H as <- <- <-. split; [exact HI|]. cbn.
       replace (cv + (eval (oa_p a) z - eval (oa_p a) z)) with cv by ring. reflexivity.
     - destruct it as [[[lp cb] cm] st]. inversion Hh as [|? ? Hit Hh']; subst.
-      destruct Hit as (Ecb & rng & n & Hc). subst cb.
-      destruct (commit1_inv _ _ _ _ _ _ Hc) as (Hdab & Ecomm & Eshift & Hnh & Hhs).
+      destruct Hit as (Ecb & Hdab & Ecomm & Eshift & Hnh & Hhs). subst cb.
       destruct (check_dab_inv _ _ _ Hdab) as (Hdeg & Hb).
       destruct HI as (HI1 & HI2 & HI3).
       cbn [i_open_loop] in H. rewrite Hdab in H. cbn [bind] in H.
@@ -204,7 +235,8 @@ Section IPAComplete.
       destruct chal as [|nxt chal1]; [discriminate|].
       destruct (lp_bound lp) as [b|] eqn:Eb.
       + destruct (Hb b eq_refl) as [Hb1 Hb2].
-        rewrite Eshift in *. cbn [Bool.eqb negb] in *. rewrite Nat.eqb_refl in H. cbn [negb] in H.
+        destruct Eshift as (sc & Esc & Hsc0).
+        rewrite Esc in *. cbn [Bool.eqb negb] in *. rewrite Nat.eqb_refl in H. cbn [negb] in H.
         destruct chal1 as [|nxt2 chal2]; [discriminate|].
         cbn [oa_p oa_r oa_c oa_hid] in H.
         destruct (Nat.ltb_spec d b) as [|_]; [lia|].
@@ -215,7 +247,7 @@ Section IPAComplete.
           { split; [|split].
             - cbn [a2 oa_p]. apply hz_padd_scaled; [apply hz_padd_scaled; [exact HI1|apply hz_of_degree; exact Hdeg]|apply shift_poly_hz; assumption].
             - cbn [a2 oa_hid]. rewrite orb_true_r. discriminate.
-            - intros i. cbn [a2 oa_p oa_c oa_r]. rewrite !co_gvadd, !co_gvscale, Ecomm, co_commit, co_cm_at by exact Hdeg.
+            - intros i. cbn [a2 oa_p oa_c oa_r]. rewrite !co_gvadd, !co_gvscale, Ecomm, Hsc0.
               rewrite !dot_padd_scaled, shift_poly_dot, HI3. ring. }
           destruct (IH _ _ _ (cv + cur * eval (lp_poly lp) z + nxt * eval (lp_poly lp) z * fpow z (d - b)) _ _ _ Hh' HI' H) as [HI'' Hsc].
           split; [exact HI''|]. cbn [a2 oa_c] in Hsc. refine (eq_trans Hsc _). apply ok3.
@@ -226,7 +258,7 @@ Section IPAComplete.
           { split; [|split].
             - cbn [a2 oa_p]. apply hz_padd_scaled; [apply hz_padd_scaled; [exact HI1|apply hz_of_degree; exact Hdeg]|apply shift_poly_hz; assumption].
             - cbn [a2 oa_hid oa_r]. rewrite orb_false_r. exact HI2.
-            - intros i. cbn [a2 oa_p oa_c oa_r]. rewrite !co_gvadd, !co_gvscale, Ecomm, co_commit, co_cm_at by exact Hdeg.
+            - intros i. cbn [a2 oa_p oa_c oa_r]. rewrite !co_gvadd, !co_gvscale, Ecomm, Hsc0.
               rewrite !dot_padd_scaled, shift_poly_dot, HI3, Er. ring. }
           destruct (IH _ _ _ (cv + cur * eval (lp_poly lp) z + nxt * eval (lp_poly lp) z * fpow z (d - b)) _ _ _ Hh' HI' H) as [HI'' Hsc].
           split; [exact HI''|]. cbn [a2 oa_c] in Hsc. refine (eq_trans Hsc _). apply ok3.
@@ -238,7 +270,7 @@ Section IPAComplete.
         { split; [|split].
           - cbn [a2 oa_p]. apply hz_padd_scaled; [exact HI1|apply hz_of_degree; exact Hdeg].
           - cbn [a2 oa_hid oa_r]. destruct (lp_hiding lp) as [hb|] eqn:Ehid; [rewrite orb_true_r; discriminate|rewrite orb_false_r; exact HI2].
-          - intros i. cbn [a2 oa_p oa_c oa_r]. rewrite !co_gvadd, !co_gvscale, Ecomm, co_commit by exact Hdeg.
+          - intros i. cbn [a2 oa_p oa_c oa_r]. rewrite !co_gvadd, !co_gvscale, Ecomm.
             rewrite !dot_padd_scaled, HI3.
             destruct (lp_hiding lp) as [hb|] eqn:Ehid; [ring|]. destruct (Hnh eq_refl) as [Er _]. rewrite Er. ring. }
         destruct (IH _ _ _ (cv + cur * eval (lp_poly lp) z) _ _ _ Hh' HI' H) as [HI'' Hsc].
@@ -278,9 +310,9 @@ Section IPAComplete.
     { intros i. rewrite co_gvadd, co_gvscale, Hc. unfold coeffs. rewrite dot_app_zeros, dot_trim, eval_app_zeros, eval_trim, Hv. ring. }
     exists rcomm, chs. repeat split; assumption.
   Qed.
-  Theorem ipa_complete d items z chal hchal rng pf rest hrest nd :
+  Theorem ipa_complete_sem d items z chal hchal rng pf rest hrest nd :
     (d + 1 = 2 ^ Nat.log2_up (d + 1))%nat ->
-    Forall (honest d) items ->
+    Forall (sem_honest d) items ->
     Forall (fun rc => rc <> 0) hchal ->
     i_open d items z chal hchal rng = Ok (pf, rest, hrest, nd) ->
     i_check d (cs_of items) z (vs_of z items) pf chal hchal = Ok (true, rest, hrest).
@@ -339,6 +371,16 @@ Section IPAComplete.
       unfold i_check. cbn [ip_l ip_r]. rewrite Ll, Lr, !Nat.eqb_refl. cbn [negb orb].
       unfold i_succinct_check. rewrite Hsc. cbn [bind ip_hcomm ip_rand Bool.eqb negb ip_l ip_r].
       rewrite E1. cbn [bind ip_c ip_key]. rewrite E2, E3. reflexivity.
+  Qed.
+  Theorem ipa_complete d items z chal hchal rng pf rest hrest nd :
+    (d + 1 = 2 ^ Nat.log2_up (d + 1))%nat ->
+    Forall (honest d) items ->
+    Forall (fun rc => rc <> 0) hchal ->
+    i_open d items z chal hchal rng = Ok (pf, rest, hrest, nd) ->
+    i_check d (cs_of items) z (vs_of z items) pf chal hchal = Ok (true, rest, hrest).
+  Proof.
+    intros Hd Hh. apply ipa_complete_sem; [exact Hd|].
+    clear - Hh FL. induction Hh as [|it items H _ IH]; [constructor|constructor; [apply honest_sem; exact H|exact IH]].
   Qed.
   Lemma itrim_pow2 D s d : itrim D s = Ok d -> (d + 1 = 2 ^ Nat.log2_up (d + 1))%nat.
   Proof.
